@@ -61,6 +61,16 @@ def gen_plan(seed, i, tier):
     return {'property': PROP, 'profile': 'mesh', 'run_index': i, 'init': init, 'steps': steps, 'timeout_s': 60}
 
 
+def _with_blind(plan, seed, i):
+    """an operation directly followed by a restart is, in a third of the cases, not observed in between"""
+    r = Rng(seed, PROP, 'blind', i)
+    st = plan['steps']
+    for k in range(len(st) - 1):
+        if st[k].get('op') != 'Restart' and st[k + 1].get('op') == 'Restart' and r.chance(0.35):
+            st[k]['blind'] = True
+    return plan
+
+
 def _with_faults(plan, seed, i):
     # a quarter of the restarts first lose a save attempt to a failing stream (disk full / EIO after k bytes), then retry
     r = Rng(seed, PROP, 'wfail', i)
@@ -71,7 +81,7 @@ def _with_faults(plan, seed, i):
 
 
 def jobs(tier, seed, pool):
-    return [{'plan': _with_faults(gen_plan(seed, i, tier), seed, i), 'meta': {}} for i in range(RUNS[tier])]
+    return [{'plan': _with_blind(_with_faults(gen_plan(seed, i, tier), seed, i), seed, i), 'meta': {}} for i in range(RUNS[tier])]
 
 
 account = hist.account
